@@ -60,6 +60,22 @@ func pow(a, b int) int {
 
 // historyUnits: all histories of length <= depth over the alphabet, split into subtrees by prefix.
 func historyUnits(alpha string, depth int, perHist float64) []unit {
+	return historyUnitsFrom(alpha, depth, perHist, 0)
+}
+
+// historyUnitsFrom: the same histories from the start state "head has index start" (see unit.Start).
+func historyUnitsFrom(alpha string, depth int, perHist float64, start int) []unit {
+	us := historyUnits0(alpha, depth, perHist)
+	if start > 0 {
+		for i := range us {
+			us[i].Start = start
+			us[i].Group += fmt.Sprintf("/start-index-%d", start)
+		}
+	}
+	return us
+}
+
+func historyUnits0(alpha string, depth int, perHist float64) []unit {
 	n := len(alphabets[alpha])
 	group := fmt.Sprintf("histories/%s/depth<=%d", alpha, depth)
 	split := 0
@@ -148,10 +164,18 @@ func buildUnits(r *vk.Run) []unit {
 			us = append(us, historyUnits("oversize", 3, 12e-3)...)
 			us = append(us, historyUnits("full", 4, 2e-3)...)
 			us = append(us, historyUnits("core", 5, 2e-3)...)
+			// start states: the rolled-file index is about to cross a power of ten (file names are <head>.%03d)
+			for _, st := range []int{9, 99, 999, 9999} {
+				us = append(us, historyUnitsFrom("core", 4, 2.5e-3, st)...)
+			}
 		} else {
 			us = append(us, historyUnits("oversize", 4, 12e-3)...)
 			us = append(us, historyUnits("full", 5, 2e-3)...)
 			us = append(us, historyUnits("core", 7, 2e-3)...)
+			for _, st := range []int{9, 99, 999, 9999, 99999} {
+				us = append(us, historyUnitsFrom("core", 5, 2.5e-3, st)...)
+			}
+			us = append(us, historyUnitsFrom("full", 4, 2.5e-3, 999)...)
 		}
 	}
 	if *partFlag == "all" || *partFlag == "damage" {
@@ -359,6 +383,7 @@ func main() {
 			Phase   int    `json:"phase"`
 			Alpha   string `json:"alpha"`
 			OpIDs   []int  `json:"op_ids"`
+			Start   int    `json:"start"`
 			OpCodes []int  `json:"op_codes"`
 			Unit    *unit  `json:"unit"`
 		}
@@ -367,7 +392,7 @@ func main() {
 		case rp.Unit != nil:
 			units = []unit{*rp.Unit}
 		case rp.Phase == 1:
-			units = []unit{{Phase: 1, Group: "replay", Alpha: rp.Alpha, Prefix: rp.OpIDs, Exact: true}}
+			units = []unit{{Phase: 1, Group: "replay", Alpha: rp.Alpha, Prefix: rp.OpIDs, Exact: true, Start: rp.Start}}
 		default:
 			units = []unit{{Phase: 2, Group: "replay", Ops: rp.OpCodes}}
 		}
@@ -543,6 +568,7 @@ func main() {
 	r.Set("rule", "states = distinct canonical on-disk/buffer states reached by write histories + distinct damage images; transitions = write/tick/restart events executed on the real baseWAL; evaluations = images (clean, crash, undamaged, each truncation, each alteration) read back through the real GroupReader/WALDecoder/SearchForEndHeight and compared with the reference record list; distinct_nontrivial = distinct (reader, damage class, outcome) combinations observed")
 	r.Assume("the head size limit is 1 byte, so a tick rotates whenever the head file is non-empty; larger thresholds only remove rotations, and tick-free histories are enumerated too; the total-size limit (1 GiB) never triggers")
 	r.Assume("ticks are explicit events (what Group.processTicks runs per tick); the 1 s AutoFile ticker that closes and reopens the head file descriptor is not modelled (O_APPEND reopen, no effect on content)")
+	r.Assume("start states other than the empty directory: two rolled files just below a power of ten (names <head>.%03d) and an empty head, as rotation plus pruning by the total-size limit leave them; the files are written through the real WAL and renamed, the thousand rotations in between are not executed")
 	r.Assume("end-of-height markers are written with ascending heights, as the node writes them; EndHeight(0) is written by OnStart whenever the head file is empty")
 	r.Assume("part 2 passes fixed timestamps to the real encoder through a hook (baseWAL.Write stamps time.Now(), whose encoding length varies); part 1 uses the real Write/WriteSync")
 	r.Assume("a crash loses exactly the head buffer (files keep every byte handed to the OS); torn sectors and lost renames are outside the bound")
